@@ -186,10 +186,9 @@ impl World {
             } else {
                 push(7, &mut cands);
             }
-            if top {
-                // documented as "skip this *field*": injected at field level only, not as a list item
-                push(12, &mut cands);
-            }
+            // As a list item, SkipForPartialExecution drops the item from the response list while
+            // error paths keep counting stream positions; the checks translate indices accordingly.
+            push(12, &mut cands);
             if !cands.is_empty() {
                 let k = *rng.pick(&cands);
                 fired.push(FAULT_KINDS[k]);
